@@ -193,8 +193,39 @@ func checkC12(c *Check) {
 	// (4) verdict literals
 	if cpg := c.pgOf(crlRoot); cpg != nil {
 		checkCRLLiterals(c, cpg, "O-C12.4")
+		// one entry per distribution point: an iteration that goes on appended its entry,
+		// and the OK verdict is only returned after the last point
+		X := "p1.CRLDistributionPoints"
+		isAppend := LP{Desc: "append the point's entry to the accumulated server results", F: func(l Label) bool {
+			return l.Kind == "assign" && l.T2 != nil && l.T2.Op == "call" && l.T2.Name == "append" && len(l.T2.Args) == 2 && l.T != nil && l.T.V != nil && l.T2.Args[0].Op == "self"
+		}}
+		c.floor("CRL entry append sites", 1, len(distinctEdgeNodes(cpg, isAppend)))
+		c.perIteration(cpg, "O-C12.4", "CRL: every distribution point that lets the check go on contributes one entry", "an iteration over the distribution points that continues with the next point has appended exactly this point's entry", X, isAppend)
+		var okRets []*PState
+		for _, s := range cpg.Returns() {
+			if cl, ok := resultClass(s.Ret[0].T); ok && cl == resOK {
+				okRets = append(okRets, s)
+			}
+		}
+		c.onlyAfterExhaustion(cpg, "O-C12.4", "CRL: OK verdict only after the last distribution point", "the OK verdict", X, okRets)
 	}
 	checkOCSPAggregate(c)
+	// OCSP: one decisive entry or one entry per responder (the responder-loop rules of O-C04.4)
+	{
+		sub := newCheck(c.Prop, c.P, c.Tier)
+		sub.depth = c.depth
+		checkC04(sub)
+		n := 0
+		for _, o := range sub.Obls {
+			if o.Rule == "O-C04.4" || (!o.OK && (o.Rule == "anchor" || o.Rule == "engine")) {
+				n++
+				ob := c.add("O-C12.4", "OCSP: "+strings.TrimPrefix(o.Key, o.Rule+"|"), o.Desc, o.OK, o.Where, o.Detail...)
+				ob.Undecided = o.Undecided
+			}
+		}
+		c.Searches += sub.Searches
+		c.floor("OCSP responder-loop rules (shared with C04)", 4, n)
+	}
 	for _, vv := range []*valTerms{v, o} {
 		if vv == nil {
 			continue
